@@ -31,13 +31,15 @@ type ArmorMut struct {
 
 var armorMutKinds = []string{"none", "linedrop", "linedup", "lineswap", "linesplit", "linejoin", "byteflip", "bytesub", "trunc",
 	"crlf_all", "crlf_some", "cr_only", "ws_before", "ws_after", "ws_lines_before", "garbage_before", "garbage_after", "pem_header",
-	"pad_move", "pad_strip", "pad_extra", "lower_header", "space_eol", "empty_line", "no_final_lf", "dup_footer", "wrong_type", "short_mid", "long_line"}
+	"pad_move", "pad_strip", "pad_extra", "lower_header", "space_eol", "empty_line", "no_final_lf", "dup_footer", "wrong_type", "short_mid", "long_line", "blanks_in_begin_line", "blanks_in_end_line"}
 
 func genArmorMut(r *core.RNG) ArmorMut {
 	m := ArmorMut{Kind: armorMutKinds[r.Intn(len(armorMutKinds))], I: r.Intn(1000), J: r.Intn(1000), B: r.Intn(256)}
 	switch m.Kind {
 	case "ws_before", "ws_after", "ws_lines_before":
 		m.N = r.Pick(1, 2, 10, 1021, 1022, 1023, 1024, 1025, 1026, 2000)
+	case "blanks_in_begin_line", "blanks_in_end_line":
+		m.N = r.Pick(1, 2, 63, 64, 127, 128, 129, 256, 384, 896, 1024, 4096)
 	default:
 		m.N = r.Range(1, 5)
 	}
@@ -123,6 +125,24 @@ func applyArmorMut(text string, m ArmorMut) string {
 		return join(ls)
 	case "ws_before":
 		return ws(m.I, m.N) + text
+	case "blanks_in_begin_line":
+		// blanks in front of the marker on the marker's own line (possibly behind whitespace lines). Whether that is
+		// "whitespace before the header line" the statement does not say: the oracle tolerates acceptance (outer
+		// whitespace is stripped before comparing) and only requires a rejection to be an *armor.Error
+		blank := []string{" ", "\t"}[m.B%2]
+		pre := ""
+		if m.I%3 == 0 {
+			pre = "\n \n"
+		}
+		return pre + strings.Repeat(blank, m.N) + text
+	case "blanks_in_end_line":
+		if n == 0 {
+			return text
+		}
+		ls := append([]string{}, lines...)
+		blank := []string{" ", "\t"}[m.B%2]
+		ls[n-1] = strings.TrimSuffix(ls[n-1], "\n") + strings.Repeat(blank, m.N) + "\n"
+		return join(ls)
 	case "ws_after":
 		return text + ws(m.I, m.N)
 	case "ws_lines_before":
